@@ -8,6 +8,8 @@ one line in five machine states.
 Built with overflow checks on. A deterministic subset is replayed through the plain CLI.
 """
 import itertools
+import os
+import re
 import time
 
 import explore
@@ -61,7 +63,7 @@ HOSTILE = [
     b"f.rs:0:x", b"f.rs:99999999999999999999:x",
     b'{"type":"match","data":{"path":{"text":"f.rs"},"lines":{"text":"ab\\n"},"line_number":0,"absolute_offset":0,"submatches":[]}}',
     b'{"type":"match","data":{"path":{"text":"f.rs"},"lines":{"text":"a\\t\xe2\x82\xac\xe2\x82\xac\xe2\x82\xac\xe2\x82\xac\\t\\n"},"line_number":3,"absolute_offset":0,"submatches":[{"match":{"text":"a"},"start":0,"end":1}]}}',
-    b"\x1b[1;<m\xe2\x82\xac\xe2\x82\xac\xe2\x82\xac\x1b[31mz", b"-\x1b[35mmoved\x1b", b"+\x1b[1;36mmoved\x1b[m", b"\x1bP\xe2\x9c\x85q\x1b[31mz",
+    b"\x1b[1;35m+foo\x1b\t[m", b"\x1b[1;35m-a\tb\x1b[\t0m", b"\x1b[1;<m\xe2\x82\xac\xe2\x82\xac\xe2\x82\xac\x1b[31mz", b"-\x1b[35mmoved\x1b", b"+\x1b[1;36mmoved\x1b[m", b"\x1bP\xe2\x9c\x85q\x1b[31mz",
     b"f.rs:1:x", b"f.rs-2-y", b"f.rs=3=fn z()", b"--", b"f.rs:x", b"a:b:c", b"\x1b[35mf.rs\x1b[m\x1b[36m:\x1b[m\x1b[32m1\x1b[m\x1b[36m:\x1b[mx",
     b'{"type":"match","data":{"path":{"text":"f.rs"},"lines":{"text":"ab\\n"},"line_number":1,"absolute_offset":0,"submatches":[{"match":{"text":"a"},"start":0,"end":1}]}}',
     b'{"type":"match","data":{"path":{"text":"f.rs"},"lines":{"text":"\xe2\x82\xac\\n"},"line_number":1,"absolute_offset":0,"submatches":[{"match":{"text":"x"},"start":1,"end":2}]}}',
@@ -325,11 +327,13 @@ FMT_VALUES = ["", " ", "{", "}", "{}", "{nm", "nm}", "{nm:}", "{nm:^0}", "{nm:^1
               "{nm:_<3}", "{nm:<3.2}", "{xx}", "{nm:^4}{np:^4}{nm}", "\u6f22{nm:^3}\u6f22", "%", "%Y-%m-%d %z", "%Q%%%",
               "{timestamp:<15} {author:<15.14} {commit:<8}", "{commit}", "{author:>0}", "{timestamp:^1}",
               "{n:^4}", "{n}", "{path}", "{host}{path}{line}", "file://{path}#{line}", "{commit:>400}",
-              "{nm:^400}", "{np:\u6f22^5}", "{nm:~>3}", "{{nm}}", "{nm:^-1}", "\x1b[31m{nm}"]
+              "{nm:^400}", "{np:\u6f22^5}", "{nm:~>3}", "{{nm}}", "{nm:^-1}", "\x1b[31m{nm}",
+              "{nm:^70000}", "{author:<70000}", "{n:^70000}", "{commit:<3.70000}"]
 SYM_VALUES = ["", " ", "ab", "\u6f22", "\t", "\x1b[31m", "e\u0301", "\u200b", "\n", "x" * 100, "\u6f22" * 50]
 RE_VALUES = ["", "(", ".*", "^", "$", "\\b", "x*", "(?:)", "a|", "[", "\\w+", ".", "\\s*", "(a)(b)", "^$", "\u6f22?"]
 FT_VALUES = ["", "s", "s/a/b/", "s/(/x/", "s/a/$9/", "s/.*//", "s///", "s/a/b/g;s/b/a/", "s,a,b,", "s/a/b",
-             "s/x/\u6f22\u6f22/", "s/^/" + "p" * 300 + "/", "s/(.)/$1$1$1$1/g", "y/a/b/"]
+             "s/x/\u6f22\u6f22/", "s/^/" + "p" * 300 + "/", "s/(.)/$1$1$1$1/g", "y/a/b/",
+             "s\u00e9a\u00e9b\u00e9", "\u00e9/a/b/", "\u6f22"]
 NUM_VALUES = {
     "width": ["0", "1", "2", "3", "4", "5", "variable", "-1", "99999", "18446744073709551615", "18446744073709551616", ""],
     "tabs": ["0", "1", "2", "1000", "18446744073709551615", "-1"],
@@ -556,6 +560,10 @@ def run_optvals(task):
                     bound = 2 * (len(inp) + 64) * (min(w, 100000) + 256) + 65536
                     if "tabs" in o:
                         bound += len(inp) * min(int(o["tabs"]) if o["tabs"].isdigit() else 8, 10**7)
+                    # padding the user asked for in a format string is not runaway output
+                    asked = sum(min(int(m), 65535) for opt, val in pair if opt in FMT_OPTS
+                                for m in re.findall(r"\{[a-z]*:[^}0-9]*([0-9]+)", val))
+                    bound += 2 * (inp.count(b"\n") + 1) * asked
                     if len(r.out) > bound:
                         note("runaway-output:" + pair[0][0], "output of %d bytes for %d input bytes" % (len(r.out), len(inp)),
                              inp.split(b"\n")[:-1], args, label + "/" + name)
@@ -659,6 +667,43 @@ def run_wrap(task):
     return {"n": n, "violations": list(viols.values())}
 
 
+PAGER_VALUES = ["", " ", "'", "\"", "less 'x", "\\", "nosuchpager-verif", "cat", "cat --", "cat 'a b'", "\u6f22",
+                "$(", "| cat", "cat\t", "a=b cat"]
+PAGER_SOURCES = ["--pager", "DELTA_PAGER", "BAT_PAGER", "PAGER"]
+
+
+def run_pager_values(task):
+    """the real binary with paging on: every listed pager value from every source. Whatever the value, delta may not
+    panic or die by a signal; when it accepts the value (status 0) the whole output must have been written."""
+    values, = task
+    data = b"diff --git a/f b/f\n--- a/f\n+++ b/f\n@@ -1 +1 @@\n-a\n+b\n"
+    viols = []
+    n = 0
+    for src in PAGER_SOURCES:
+        for val in values:
+            args = ["--no-gitconfig", "--paging=always", "--width=80"]
+            env = {"PATH": os.environ.get("PATH", "/usr/bin:/bin")}
+            if src == "--pager":
+                args.append("--pager=" + val)
+            else:
+                env[src] = val
+            try:
+                status, out, err = run_cli(args, data, env=env, timeout=20.0)
+            except Exception as e:
+                status, out, err = -9, b"", ("%s: %s" % (type(e).__name__, e)).encode()
+            n += 1
+            if status == 101 or status < 0 or b"panicked" in err or b"report the bug" in err:
+                site = explore.crash_site(err.decode("utf-8", "replace")) if b"panicked" in err else "status%d" % status
+                v = Violation("crash:pager-value:%s:%s" % (site, src),
+                              "pager value %r from %s: status %d: %s" % (val, src, status, err[-300:].decode("utf-8", "replace")),
+                              data.split(b"\n")[:-1])
+                v.args = args
+                v.env = {src: val} if src != "--pager" else None
+                v.config_label = "%s=%r" % (src, val)
+                viols.append(v)
+    return {"n": n, "violations": viols}
+
+
 def plan(tier):
     d1 = deviations(DIMS, 1)
     hostile = []
@@ -736,6 +781,7 @@ def main(tier):
     otasks, n_optvals, n_optpairs, n_optmodes = plan_optvals(tier, deadline)
     res_o = explore.pmap(run_optvals, otasks)
     lt["option_value_layer"] = round(time.time() - t1, 1)
+    res_p = explore.pmap(run_pager_values, [(PAGER_VALUES[i::5],) for i in range(5)])
     t1 = time.time()
     sharded = []
     for t in hostile:
@@ -774,6 +820,9 @@ def main(tier):
         viols.extend(r["violations"])
     nwrap = sum(r["n"] for r in res_w)
     for r in res_w:
+        viols.extend(r["violations"])
+    npager = sum(r["n"] for r in res_p)
+    for r in res_p:
         viols.extend(r["violations"])
     nbytes = 0
     bouts = set()
@@ -820,7 +869,7 @@ def main(tier):
         if v.klass.startswith("crash:") and v.history:
             data = b"".join(l + b"\n" for l in v.history)
             try:
-                status, out, err = run_cli(v.args, data, caller=v.caller)
+                status, out, err = run_cli(v.args, data, caller=v.caller, env=v.env)
             except Exception as e:
                 status, err = -1, str(e).encode()
             ncli += 1
@@ -831,7 +880,8 @@ def main(tier):
                                      "driver does not represent the binary" % v.klass)
     cov = {
         "states": states, "transitions": transitions,
-        "traces_validated_against_impl": renders + nbytes + ncli + ndeco + nopt + nwrap,
+        "traces_validated_against_impl": renders + nbytes + ncli + ndeco + nopt + nwrap + npager,
+        "pager_value_runs": npager,
         "wrap_exact_fit_sweep_renders": nwrap, "layer_wall_s": lt,
         "option_value_layer": {"option_values": n_optvals, "deviation_tuples": n_optpairs, "modes": n_optmodes,
                                "corpus_inputs": len(OPT_CORPUS), "configurations_accepted": nopt_conf,
